@@ -292,6 +292,12 @@ def ctor_cases():
     add("CDS(empty)", lambda: CDSInterval([3], [3], P, [Z]))
     add("CDS(mix)", lambda: CDSInterval([0, 7], [5, 9], P, [CDSPhase.ZERO, O]))
     add("CDS(start>end)", lambda: CDSInterval([5], [2], P, [Z]))
+    # NONE is the frame / phase of rows that are not CDS: a CDS block without a frame has no reading frame to speak of
+    from inscripta.biocantor.gene.cds_frame import CDSFrame as _F
+    add("CDS(frame NONE)", lambda: CDSInterval([0], [9], P, [_F.NONE], parent_or_seq_chunk_parent=chrom()), must_refuse=True)
+    add("CDS(frame ZERO, NONE)", lambda: CDSInterval([0, 7], [5, 14], P, [Z, _F.NONE], parent_or_seq_chunk_parent=chrom()), must_refuse=True)
+    add("CDS(phase NONE)", lambda: CDSInterval([0], [9], P, [CDSPhase.NONE]), must_refuse=True)
+    add("Transcript(cds frame NONE)", lambda: TranscriptInterval([0], [9], P, cds_starts=[0], cds_ends=[9], cds_frames=[_F.NONE]), must_refuse=True)
     add("CDS(unequal)", lambda: CDSInterval([0, 7], [5], P, [Z, Z]))
     add("CDS(2bp).translate", lambda: CDSInterval([0], [2], P, [Z], parent_or_seq_chunk_parent=chrom()).translate())
     add("CDS(2bp).has_canonical_start_codon", lambda: CDSInterval([0], [2], P, [Z], parent_or_seq_chunk_parent=chrom()).has_canonical_start_codon)
